@@ -74,6 +74,18 @@ class DeleteRateCellsKeep(Contract):
         V.env.update(n=n, rem=rem, k=k)
         return [M, rem], {}
 
+    def to_case(self, vals, variant):
+        n, rem = vals.get("n"), vals.get("to_remove")
+        if n is None or rem is None or not (1 <= n <= 14):
+            return None
+        import numpy as np
+        rng = np.random.default_rng(n)
+        M = rng.permutation(5000)[: n * n].reshape(n, n).astype(float) + 1
+        M = M + M.T
+        np.fill_diagonal(M, 0)
+        np.fill_diagonal(M, -M.sum(axis=1))
+        return {"M0": M.tolist(), "ops": [["delete", [int(x) for x in rem if x is not None and 0 <= x < n]]], "sparse": True}
+
     @property
     def observe(self):
         def hook(interp, frame, val):
